@@ -129,6 +129,17 @@ CLAIMS["C18"] = (
     "decided clauses are necessary conditions for them.",
     "DESIGN.md 4/C18")
 
+CLAIMS["C14"] = (
+    "call-graph closure of throw types, CFG reachability of a throw after a state write with propositional feasibility of the two branch-condition sets (sympy satisfiability over "
+    "stable predicate atoms), size-check presence before forwarding vector data, sibling agreement of validation guards",
+    "Static rule discharge over the 120+ public methods of TasmanianSparseGrid and the ~900 functions they reach: every throw expression constructs std::runtime_error or "
+    "std::invalid_argument and throwing std conversions are converted; in every mutating entry point no feasible path runs from a write of the grid's state (base, transforms, conformal "
+    "map, level limits, construction flag) to a throw, make* validates before clear(), the readers change nothing but clear() before their last throw and commit afterwards; vector "
+    "arguments are size-checked before their data pointer is forwarded; the make / refinement / construction families reject the same things on their common parameters.",
+    "'Never hangs, no undefined behaviour for any bad call in any state' is dynamic and not decided. Exceptions thrown from inside the grid classes after partial mutation (deep "
+    "failures such as a missing custom rule file) are only covered through the throw-type clause. Level limits are treated as part of the grid's state.",
+    "DESIGN.md 4/C14")
+
 PENDING = {}
 
 NOT_APPLICABLE = {}
